@@ -54,6 +54,7 @@ class ModelFunctionBase(FileIOMixin, object):
         """
         _custom_defaults = OrderedDict()
         self._name = None
+        self._source_code = None
 
         # determine library function from string specification
         if isinstance(model_function, str):
@@ -88,6 +89,7 @@ class ModelFunctionBase(FileIOMixin, object):
 
                 self._model_function_handle.latex_name = _latex_name
                 self._model_function_handle.latex_expression_format_string = _latex_string
+                self._source_code = model_function  # the generated Python code is not self-contained
             if not self._model_function_handle:
                 raise ValueError("Unknown model function: %s" % model_function)
             self._callable = self._model_function_handle
@@ -114,7 +116,6 @@ class ModelFunctionBase(FileIOMixin, object):
         self._assign_model_function_signature_and_argcount(_custom_defaults)
         self._validate_model_function_raise()
         self._assign_function_formatter()
-        self._source_code = None
         super(ModelFunctionBase, self).__init__()
 
     @classmethod
